@@ -1,52 +1,11 @@
 //! Kani harness: UTF-8 re-synchronisation of streamed content (C13 claimed clause, C15).
 //! Child module of `rewritable_units::text_encoder`.
+// @requires src/verif_kani_utf8.rs
 use super::*;
+use crate::verif_kani_utf8::*;
+use core::sync::atomic::Ordering;
 
 const CN: usize = 2; // @thorough 3
-
-#[derive(PartialEq, Clone, Copy)]
-enum St {
-    Complete,
-    Incomplete,
-    Invalid,
-}
-
-fn is_cont(b: u8) -> bool {
-    b & 0xC0 == 0x80
-}
-
-/// Reference UTF-8 scanner (Unicode Table 3-7): (length of the longest valid prefix, status of the rest)
-fn scan(b: &[u8]) -> (usize, St) {
-    let mut i = 0;
-    while i < b.len() {
-        let b0 = b[i];
-        let (len, lo, hi) = match b0 {
-            0x00..=0x7F => (1, 0, 0),
-            0xC2..=0xDF => (2, 0x80, 0xBF),
-            0xE0 => (3, 0xA0, 0xBF),
-            0xE1..=0xEC | 0xEE..=0xEF => (3, 0x80, 0xBF),
-            0xED => (3, 0x80, 0x9F),
-            0xF0 => (4, 0x90, 0xBF),
-            0xF1..=0xF3 => (4, 0x80, 0xBF),
-            0xF4 => (4, 0x80, 0x8F),
-            _ => return (i, St::Invalid),
-        };
-        let mut k = 1;
-        while k < len {
-            if i + k >= b.len() {
-                return (i, St::Incomplete);
-            }
-            let c = b[i + k];
-            let ok = if k == 1 { c >= lo && c <= hi } else { is_cont(c) };
-            if !ok {
-                return (i, St::Invalid);
-            }
-            k += 1;
-        }
-        i += len;
-    }
-    (i, St::Complete)
-}
 
 fn width(b0: u8) -> usize {
     match b0 {
@@ -78,58 +37,6 @@ fn buffered_ok(r: &IncompleteUtf8Resync) -> bool {
     true
 }
 
-
-use core::sync::atomic::{AtomicUsize, Ordering};
-
-/// `Utf8Error` values can only be made by the standard library and its fields are private, so the model keeps
-/// the two facts the code under verification reads (`valid_up_to()`, `error_len().is_some()`) of the *most
-/// recent* error in two statics, and `valid_up_to` / `error_len` are stubbed to read them. Sound for this code
-/// because every error is inspected before the next `from_utf8` call (read: both call sites consume the error inside the `match`/`map_err` that received it).
-static LAST_VALID: AtomicUsize = AtomicUsize::new(0);
-static LAST_DEFINITE: AtomicUsize = AtomicUsize::new(0);
-
-fn some_utf8_error() -> core::str::Utf8Error {
-    // the real validator (through `from_utf8_mut`, which is not the stubbed function) on a concrete witness
-    let mut b = [0xFFu8];
-    match core::str::from_utf8_mut(&mut b) {
-        Err(e) => e,
-        Ok(_) => unreachable!(),
-    }
-}
-
-/// Verification model of `core::str::from_utf8` (used through `#[kani::stub]`): the reference scanner above
-/// decides; the `&str` on success comes from the standard library's own safe chunk iterator, and a disagreement
-/// between the two is an assertion failure, not a pruned path. The model is compared with the real `from_utf8`
-/// in `c13_from_utf8_model_agrees_with_std`.
-pub(crate) fn model_from_utf8(v: &[u8]) -> Result<&str, core::str::Utf8Error> {
-    let (valid, st) = scan(v);
-    match st {
-        St::Complete => match v.utf8_chunks().next() {
-            None => Ok(""),
-            Some(c) => {
-                assert!(c.valid().len() == v.len(), "from_utf8 model: scanner and Utf8Chunks agree");
-                Ok(c.valid())
-            }
-        },
-        St::Incomplete | St::Invalid => {
-            LAST_VALID.store(valid, Ordering::Relaxed);
-            LAST_DEFINITE.store((st == St::Invalid) as usize, Ordering::Relaxed);
-            Err(some_utf8_error())
-        }
-    }
-}
-
-pub(crate) fn model_valid_up_to(_e: &core::str::Utf8Error) -> usize {
-    LAST_VALID.load(Ordering::Relaxed)
-}
-
-pub(crate) fn model_error_len(_e: &core::str::Utf8Error) -> Option<usize> {
-    if LAST_DEFINITE.load(Ordering::Relaxed) == 1 {
-        Some(1)
-    } else {
-        None
-    }
-}
 
 /// The model used as a stub equals the real `std::str::from_utf8` on every byte string of <= MN bytes
 /// (verdict, `valid_up_to`, and whether the error is definite).
